@@ -16,7 +16,7 @@ func init() {
 		Configs: func(string, int64) []map[string]int {
 			return cross(one("level", 0, 1, 2, 3), one("mode", 1, 2, 4))
 		}})
-	reg(&Oblig{ID: "QR-A", Pkg: "qr", Func: "VP_QR_stream", Props: []string{"C01", "C10", "C13"},
+	reg(&Oblig{ID: "QR-A", Pkg: "qr", Func: "VP_QR_stream", Props: []string{"C01", "C10", "C13", "C16"},
 		Desc:  "mode encoders: accepted exactly when the content is in the mode's alphabet and fits version 40; the returned bit stream parses (mode indicator, count field of the version class, 10/7/4-bit, 11/6-bit or 8-bit groups) to exactly the content; terminator, zero fill, EC/11 padding; minimal version; Auto picks numeric < alphanumeric < byte",
 		Real:  []string{"qr.encodeNumeric", "qr.encodeAlphaNumeric", "qr.stringToAlphaIdx (goroutine)", "qr.encodeUnicode", "qr.encodeAuto", "qr.addPaddingAndTerminator", "qr.findSmallestVersionInfo", "strconv.Atoi (interpreted)", "(*utils.BitList).AddBits/AddByte"},
 		Stubs: []string{oracle, "strings.IndexRune on the constant alphanumeric charset modelled exactly", "goroutines run as coroutines; goroutine leak on any path is an obligation"},
@@ -78,7 +78,7 @@ func init() {
 			return out
 		},
 		Tune: func(in *exec.Instance, tier string) { in.Redirect = map[string]string{qrPenalty: "qr:vpPenaltyStub"} }})
-	reg(&Oblig{ID: "QR-E", Pkg: "qr", Func: "VP_QR_e2e", Props: []string{"C01", "C10", "C11", "C12", "C13"},
+	reg(&Oblig{ID: "QR-E", Pkg: "qr", Func: "VP_QR_e2e", Props: []string{"C01", "C11", "C13"},
 		Desc:  "Encode / EncodeWithColor end to end on symbolic content: smallest version for the (densest) mode, and every module equals the reference pipeline (segment, padding, blocks, RS, interleave, placement, mask named by the format word); Content, metadata, colour scheme",
 		Real:  []string{"qr.Encode", "qr.EncodeWithColor", "(qr.Encoding).getEncoder", "all of QR-A, QR-B, QR-C"},
 		Stubs: []string{oracle, rsStub, penStub, "content class-constrained so that it is representable (digits / upper-case letters / bytes >= 0x80 / arbitrary bytes in byte mode); rejection is QR-A's subject"},
